@@ -21,6 +21,8 @@ def spec():
         Row('S2', 'E0', 'S0', guard=3),
         Row('S2', 'E1', 'S1'),
         Row('S2', 'E2', None, actions=['i2']),
+        Row('S2', 'E0', None, guard=10),                         # guard-only internal row in the table (g_irow): wins over S2+E0->S0 when it holds
+        Row('S1', 'E2', None, guard=11),                         # ... and one in front of an unguarded external row
     ], internal=[
         Row(None, 'E3', None, guard=6, actions=['smi0']),
         Row(None, 'E3', None, guard=7, actions=['smi1']),
